@@ -527,7 +527,8 @@ contract(M + ':Cell._fix_invalid_placements',
                   'ident_ok(self)',
                   ('C05', 'groups_ok(self)'), ('C05', 'held_distinct(self)'), ('C05', 'held_not_free(self)'), ('C05', 'ident_nonneg(self)'), ('C05', 'all_unplaced_free(self)'),
                   ('C03', 'standing_ok(self, servers)'), ('C03', 'clock_now() >= old(clock_now())'),
-                  ('C03', 'only_unplaced(self)')],
+                  ('C03', 'only_unplaced(self)'),
+                  ('C08', 'forall(lambda n: implies(n in self.apps and old(self.apps[n].server) is not None and old(self.apps[n].server) in servers, self.apps[n].server == old(self.apps[n].server)), "Name")')],
          modifies=[('Application.server', 'lambda a: True'), ('Application.evicted', 'lambda a: True'),
                    ('Application.identity', 'lambda a: True'), ('IdentityGroup.available', 'lambda g: True')],
          props=['C01', 'C05'])
@@ -537,7 +538,8 @@ invariant(M + ':Cell._fix_invalid_placements', 0, 'for app in queue',
            'forall(lambda j: implies(0 <= j and j < _i, placed_ok(queue[j], servers)), "Int")',
            ('C05', 'groups_ok(self)'), ('C05', 'held_distinct(self)'), ('C05', 'held_not_free(self)'), ('C05', 'ident_nonneg(self)'), ('C05', 'all_unplaced_free(self)'),
            ('C03', 'standing_ok(self, servers)'), ('C03', 'clock_now() >= old(clock_now())'),
-           ('C03', 'only_unplaced(self)')])
+           ('C03', 'only_unplaced(self)'),
+           ('C08', 'forall(lambda n: implies(n in self.apps and old(self.apps[n].server) is not None and old(self.apps[n].server) in servers, self.apps[n].server == old(self.apps[n].server)), "Name")')])
 
 contract(M + ':Cell._handle_blacklisted_apps',
          types={'queue': 'List[Application]', 'servers': 'Dict[Name,Server]'},
@@ -549,7 +551,8 @@ contract(M + ':Cell._handle_blacklisted_apps',
                   ('C05,C08', 'blacklist_ok(self)'),
                   ('C05', 'groups_ok(self)'), ('C05', 'held_distinct(self)'), ('C05', 'held_not_free(self)'), ('C05', 'ident_nonneg(self)'), ('C05', 'all_unplaced_free(self)'),
                   ('C03', 'standing_ok(self, servers)'), ('C03', 'clock_now() >= old(clock_now())'),
-                  ('C03', 'only_unplaced(self)')],
+                  ('C03', 'only_unplaced(self)'),
+                  ('C08', 'forall(lambda n: implies(n in self.apps and not self.apps[n].blacklisted, self.apps[n].server == old(self.apps[n].server)), "Name")')],
          modifies=PREPASS_MODIFIES, props=['C01', 'C05', 'C08'])
 invariant(M + ':Cell._handle_blacklisted_apps', 0, 'for app in queue',
           ['srv_ok(servers)', 'back_ok(self, servers)', 'link_ok(self, servers)', 'ident_ok(self)',
@@ -557,7 +560,8 @@ invariant(M + ':Cell._handle_blacklisted_apps', 0, 'for app in queue',
                    '       queue[j].server is None), "Int")'),
            ('C05', 'groups_ok(self)'), ('C05', 'held_distinct(self)'), ('C05', 'held_not_free(self)'), ('C05', 'ident_nonneg(self)'), ('C05', 'all_unplaced_free(self)'),
            ('C03', 'standing_ok(self, servers)'), ('C03', 'clock_now() >= old(clock_now())'),
-           ('C03', 'only_unplaced(self)')])
+           ('C03', 'only_unplaced(self)'),
+           ('C08', 'forall(lambda n: implies(n in self.apps and not self.apps[n].blacklisted, self.apps[n].server == old(self.apps[n].server)), "Name")')])
 
 contract(M + ':Cell._fix_invalid_identities',
          types={'queue': 'List[Application]', 'servers': 'Dict[Name,Server]'},
@@ -571,16 +575,20 @@ contract(M + ':Cell._fix_invalid_identities',
                           '  self.apps[n].identity < self.apps[n].identity_group_ref.count), "Name")'),
                   ('C05', 'groups_ok(self)'), ('C05', 'held_distinct(self)'), ('C05', 'held_not_free(self)'), ('C05', 'ident_nonneg(self)'), ('C05', 'all_unplaced_free(self)'),
                   ('C03', 'standing_ok(self, servers)'), ('C03', 'clock_now() >= old(clock_now())'),
-                  ('C03', 'only_unplaced(self)')],
+                  ('C03', 'only_unplaced(self)'),
+                  ('C08', 'forall(lambda n: implies(n in self.apps and (old(self.apps[n].identity) is None or self.apps[n].identity_group_ref is None or old(self.apps[n].identity) < self.apps[n].identity_group_ref.count), self.apps[n].server == old(self.apps[n].server)), "Name")'),
+                  ('C08', 'nonup_kept(self, servers)', 'nonup_kept')],
          modifies=PREPASS_MODIFIES, props=['C01', 'C05'])
 invariant(M + ':Cell._fix_invalid_identities', 0, 'for app in queue',
           ['srv_ok(servers)', 'back_ok(self, servers)', 'link_ok(self, servers)', 'ident_ok(self)', ('C05,C08', 'blacklist_ok(self)'),
-           ('C05', 'forall(lambda j: implies(0 <= j and j < _i and queue[j].identity is not None and '
+           ('C05,C08', 'forall(lambda j: implies(0 <= j and j < _i and queue[j].identity is not None and '
                    '  queue[j].identity_group_ref is not None, '
                    '  queue[j].identity < queue[j].identity_group_ref.count), "Int")'),
            ('C05', 'groups_ok(self)'), ('C05', 'held_distinct(self)'), ('C05', 'held_not_free(self)'), ('C05', 'ident_nonneg(self)'), ('C05', 'all_unplaced_free(self)'),
            ('C03', 'standing_ok(self, servers)'), ('C03', 'clock_now() >= old(clock_now())'),
-           ('C03', 'only_unplaced(self)')])
+           ('C03', 'only_unplaced(self)'),
+           ('C08', 'forall(lambda n: implies(n in self.apps and (old(self.apps[n].identity) is None or self.apps[n].identity_group_ref is None or old(self.apps[n].identity) < self.apps[n].identity_group_ref.count), self.apps[n].server == old(self.apps[n].server)), "Name")'),
+           ('C08', 'forall(lambda n: implies(n in self.apps, self.apps[n].identity == old(self.apps[n].identity) or qidx(queue, self.apps[n]) < _i), "Name")')])
 
 
 @spec
